@@ -130,6 +130,51 @@ Proof. exact ftp_cwd_spec. Qed.
 Theorem C11_ftp_run_completes : forall cmds s, snd (run s cmds) = false.
 Proof. exact run_not_fatal. Qed.
 
+(* ---- containment is judged by path components, never by text ---- *)
+
+(* RealPath, ALL roots, ALL argument strings, every reachable working directory: the component
+   list of the result is the root's component list followed by components that are none of
+   "", ".", ".." - i.e. the result lies inside the root component by component, which is more
+   than its text beginning with the root's text *)
+Theorem C11_real_path_componentwise_inside : forall root rs cwd p,
+  clean_root root rs -> rooted_clean cwd ->
+  exists cs, Forall good cs /\ comps (real_path root cwd p) = rs ++ cs.
+Proof. exact real_path_componentwise. Qed.
+
+(* the executable predicate [inside_b] evaluated on the implementation's RealPath strings, on
+   snapshot keys and on listed entries IS component-wise containment (for clean paths) ... *)
+Theorem C11_inside_is_componentwise : forall root rs k,
+  clean_root root rs -> rooted_clean k ->
+  (inside root k <-> exists cs, comps k = rs ++ cs).
+Proof. exact inside_componentwise. Qed.
+
+(* ... it implies what strings.HasPrefix(k, root) computes; the converse fails
+   (C11_text_prefix_strictly_weaker below) *)
+Theorem C11_inside_implies_text_prefix : forall root k,
+  inside root k -> text_prefixed_b root k = true.
+Proof. exact inside_text_prefixed. Qed.
+
+(* after every history of ChangeDir/RealPath calls on an unchanging tree each successful
+   directory change reports a working directory that names an EXISTING directory inside the
+   root - the executable judgement of the htfs part ([HtfsCheck.obs_sig], all four
+   signatures) never fires on the model's own observations *)
+Theorem C11_cwd_names_directory_all_histories : forall fs root rs,
+  clean_root root rs -> forall os h,
+  h_root h = root -> rooted_clean (h_cwd h) ->
+  cd_dirs_ok fs root os (snd (hrun fs h os)) /\
+  HtfsCheck.obs_sig fs root os (snd (hrun fs h os)) = 0.
+Proof. exact hrun_cd_names_dir. Qed.
+
+(* FTP sessions made of commands that change nothing on the host (PWD CWD CDUP RETR LIST NLST
+   MDTM SIZE REST APPE), any length, any arguments: the host file system is as before and every
+   PWD text names a directory that exists inside the root *)
+Theorem C11_ftp_reported_cwd_names_directory : forall root rs fs,
+  clean_root root rs -> is_dir fs root = true -> forall cmds,
+  forallb readonly_cmd cmds = true ->
+  let '(s', rsps, _) := run (init_sess fs root) cmds in
+  s_fs s' = fs /\ FtpCheck.pwd_nodir root fs cmds (map obs_of rsps) = false.
+Proof. exact readonly_session_pwd. Qed.
+
 (* ---- non-vacuity ---- *)
 Definition ex_root : bytes := [47;115;114;118;47;102;116;112].            (* /srv/ftp *)
 Definition ex_fs : hostfs :=
@@ -185,6 +230,55 @@ Example C11_root_removed_parent_stays :
   lookup (s_fs s') [47;115;114;118] = Some NDir /\ lookup (s_fs s') ex_root = Some NDir.
 Proof. vm_compute. repeat split. Qed.
 
+(* textual prefix containment is STRICTLY weaker than containment: root /r/pub, k /r/pub.old/x
+   begins with the root's text, is a clean rooted path, and is not inside the root - its
+   component list [r; pub.old; x] does not start with [r; pub] *)
+Definition ex_pub : bytes := [47;114;47;112;117;98].                                 (* /r/pub *)
+Definition ex_pub_old_x : bytes := ex_pub ++ [46;111;108;100;47;120].                (* /r/pub.old/x *)
+Example C11_text_prefix_strictly_weaker :
+  clean_root ex_pub [[114]; [112;117;98]] /\
+  text_prefixed_b ex_pub ex_pub_old_x = true /\ rooted_clean_b ex_pub_old_x = true /\
+  inside_b ex_pub ex_pub_old_x = false /\ name_extends_b ex_pub ex_pub_old_x = true /\
+  comps ex_pub_old_x = [[114]; [112;117;98;46;111;108;100]; [120]] /\
+  ~ (exists cs, comps ex_pub_old_x = [[114]; [112;117;98]] ++ cs).
+Proof.
+  split.
+  { split; [discriminate|]. split; [|reflexivity].
+    repeat constructor; try discriminate; intros H; cbn in H; intuition discriminate. }
+  repeat split; try (vm_compute; reflexivity).
+  intros (cs & E). vm_compute in E. discriminate.
+Qed.
+
+(* "/../pub.old/x", "/a/../../pub.old/x", "../pub.old/x", "//..//pub.old//x/", "/../pub2",
+   "/../pu": no spelling of a sibling whose name extends (or is extended by) the root's name
+   leaves the root; each lands beneath /r/pub *)
+Example C11_name_extending_sibling_is_absorbed :
+  let old_x := [112;117;98;46;111;108;100;47;120] in                              (* pub.old/x *)
+  real_path ex_pub [47] ([47;46;46;47] ++ old_x) = ex_pub ++ 47 :: old_x /\
+  real_path ex_pub [47;97] ([47;97;47;46;46;47;46;46;47] ++ old_x) = ex_pub ++ 47 :: old_x /\
+  real_path ex_pub [47;97] ([46;46;47] ++ old_x) = ex_pub ++ 47 :: old_x /\
+  real_path ex_pub [47] ([47;47;46;46;47;47;112;117;98;46;111;108;100;47;47;120;47]) = ex_pub ++ 47 :: old_x /\
+  real_path ex_pub [47] [47;46;46;47;112;117;98;50] = ex_pub ++ [47;112;117;98;50] /\
+  real_path ex_pub [47] [47;46;46;47;112;117] = ex_pub ++ [47;112;117] /\
+  inside_b ex_pub (real_path ex_pub [47] ([47;46;46;47] ++ old_x)) = true.
+Proof. vm_compute. repeat split. Qed.
+
+(* CWD /../pub.old with a directory /r/pub.old beside the root: refused (550), PWD stays "/",
+   and RETR /../pub.old/x finds nothing although /r/pub.old/x exists *)
+Example C11_sibling_session_example :
+  let fs := [([47;114], NDir); (ex_pub, NDir); (ex_pub ++ [47;97], NDir);
+             (ex_pub ++ [46;111;108;100], NDir); (ex_pub_old_x, NFile [83;69;67])] in
+  let cmds := [CCwd [47;46;46;47;112;117;98;46;111;108;100]; CPwd; CRest (-100)%Z;
+               CRetr [47;46;46;47;112;117;98;46;111;108;100;47;120]; CCwd [97]; CPwd] in
+  let '(s', rsps, fatal) := run (init_sess fs ex_pub) cmds in
+  map r_codes rsps = [[550]; [257]; [350]; [551]; [250]; [257]] /\
+  map r_pay rsps = [PNone; PText [47]; PNone; PText []; PNone; PText [47;97]] /\
+  forallb readonly_cmd cmds = true /\ is_dir fs ex_pub = true /\
+  FtpCheck.pwd_nodir ex_pub fs cmds (map obs_of rsps) = false /\
+  (* the judgement is not vacuous: a PWD text "/pub.old" would be flagged *)
+  FtpCheck.pwd_nodir ex_pub fs [CPwd] [([257], PText [47;112;117;98;46;111;108;100])] = true.
+Proof. vm_compute. repeat split. Qed.
+
 Print Assumptions C11_clean_rooted_no_dotdot.
 Print Assumptions C11_real_path_shape.
 Print Assumptions C11_real_path_contained.
@@ -199,3 +293,8 @@ Print Assumptions C11_reported_cwd_inside.
 Print Assumptions C11_rooted_clean_b_correct.
 Print Assumptions C11_ftp_cwd_cdup_stay_inside.
 Print Assumptions C11_ftp_run_completes.
+Print Assumptions C11_real_path_componentwise_inside.
+Print Assumptions C11_inside_is_componentwise.
+Print Assumptions C11_inside_implies_text_prefix.
+Print Assumptions C11_cwd_names_directory_all_histories.
+Print Assumptions C11_ftp_reported_cwd_names_directory.
